@@ -220,7 +220,11 @@ func (c15) Eval(c *Chooser, env *Env) *Outcome {
 	}
 	// -ignore flags
 	var cli []string
-	for i, n := 0, c.Int("world.ncli", 3); i < n; i++ {
+	for i, n := 0, c.Int("world.ncli", 5); i < n; i++ {
+		if c.Weighted("world.cliempty", 1, 12) {
+			cli = append(cli, "") // the empty regular expression matches every message
+			continue
+		}
 		cli = append(cli, c15Ignores[c.Int("world.cliign", len(c15Ignores))])
 	}
 	// mode, cwd, spelling
@@ -290,6 +294,12 @@ func (c15) Eval(c *Chooser, env *Env) *Outcome {
 			}
 			spelled = append(spelled, s)
 		}
+	}
+	if (mode == 0 || mode == 1) && !strings.HasPrefix(cwd, root+"/.github/workflows") && c.Weighted("world.wfdirlink", 1, 10) {
+		// .github/workflows is a symbolic link to a directory kept elsewhere (files named explicitly)
+		RelocateDir(disk, root+"/.github/workflows", "/shared/workflows-of"+strings.ReplaceAll(root, "/", "-"))
+		RelocateDir(diskU, root+"/.github/workflows", "/shared/workflows-of"+strings.ReplaceAll(root, "/", "-"))
+		o.probe("workflows_dir_is_a_symlink", 1)
 	}
 	w := &World{Disk: disk, Cwd: cwd, CPUs: []int{2, 1, 4}[c.Int("world.cpus", 3)], API: APIMain, Args: append(append([]string{}, args...), spelled...), Note: "C15 filtered run"}
 	if mode == 4 {
